@@ -27,6 +27,13 @@ NOTES = ("Every check: TLC-generated cases -> Go harness runs the real emerge co
          "counterexamples replayed on the real code before a VIOLATION line is printed. Exit 2 = infrastructure, never a verdict.")
 NOT_APPLICABLE = {}
 CHECKS = {
+    "C06": {
+        "level": "model_checking",
+        "engine": "tlc-lalr",
+        "technique": "TLC builds the LALR(1) table of each derived grammar + recorded precedence levels from first principles and compares with what the real Spec.LALRParsingTable() returned: conflict iff unresolved, state-by-state table isomorphism, LR driver on the returned table vs bounded language, operator grouping",
+        "text": "26 textbook grammars (SLR, LALR-not-SLR, LR(1)-not-LALR, ambiguous with/without directives), every precedence table over 3 binary operators (ordered partitions x associativities) and 1500 (12000) two-rule grammars drawn from the complete space of 177k: emerge must reject with a conflict report exactly when a conflict remains after the documented resolution; a returned table must be cell for cell the table TLC builds; the shift-reduce driver on the RETURNED table must accept exactly the grammar's sentences for all terminal strings up to length 4 (5); x o1 x o2 x must be grouped as declared.",
+        "note": "Known finding SUPERSET-GOTO (dependency) is matched only on grammars satisfying its trigger condition (nested kernels), computed by TLC. Grammars on which the dependency's table builder panics (non-generating non-terminals) are skipped here and reported under C14.",
+    },
     "C04": {
         "level": "model_checking",
         "engine": "tlc-lalr",
